@@ -304,9 +304,14 @@ pub fn enforce_limbs_agg<E: FieldElement<BaseField = Felt>>(
     // in the next row.
     result[0] = u32op_ex_div_assert2 * are_equal(frame.stack_item_next(1), limbs.v_lo());
 
+    // for U32ASSERT2 the helper registers hold the limbs of the top stack element (lower two limbs)
+    // and of the second stack element (upper two limbs); the stack itself does not change.
+    result[0] += op_flag.u32assert2() * are_equal(frame.stack_item_next(0), limbs.v_lo());
+
     // Enforces that aggregation of the two upper 16-bits limbs is equal to the first stack element
     // in the next row.
     result[1] = u32op_ex_div_assert2_sub * are_equal(frame.stack_item_next(0), limbs.v_hi());
+    result[1] += op_flag.u32assert2() * are_equal(frame.stack_item_next(1), limbs.v_hi());
 
     2
 }
